@@ -55,7 +55,7 @@ ASSUMPTIONS = [
     "counts as not built when the cleanup pass was skipped, a DRAINED build is compared by return-code class",
 ]
 
-KNOWN_NAMED = [co.SIG_D4, co.SIG_D9, co.SIG_D8, co.SIG_F1, co.SIG_F2, co.SIG_F3, co.SIG_F4, co.SIG_F5, co.SIG_F6, co.SIG_F7, co.SIG_F8]
+KNOWN_NAMED = [co.SIG_D4, co.SIG_D9, co.SIG_D8, co.SIG_F1, co.SIG_F2, co.SIG_F3, co.SIG_F4, co.SIG_F5, co.SIG_F6, co.SIG_F7, co.SIG_F8, co.SIG_F9]
 
 
 def generate(ctx):
@@ -288,6 +288,19 @@ def guard_cases() -> dict:
                    program={"scripts": {"plan.py": pd(["VA", "VD"]), "w.py": wd([])}, "commands": {}})
     out["d9-stale-row-shadows-amended-variable"] = co.case_json(
         p, [{"edits": [prog({"plan.py": pd(["VA"]), "w.py": wd(["VD"])})]}])
+    # F9: a sub-plan cannot run again (its input, a file below a static tree, was deleted): it is
+    # PENDING, what its earlier run created stays attached; a step of the MAIN plan that consumes an
+    # output of such a product stays SUCCEEDED, from scratch it is PENDING (its input is undeclared).
+    # With a change of the product's own source the product is not rerun (not safe) and the
+    # consumer goes PENDING: equal.
+    tt = {"op": "step", "label": "t", "inp": ["s.txt"], "out": ["o.txt"]}
+    mainp = [{"op": "static", "paths": ["s.txt", "p1.py", "data/"]},
+             {"op": "plan", "label": "./p1.py", "inp": ["data/cfg.txt"]}, u]
+    for name, extra in (("", []), (":product-source-changes", [change])):
+        p = e3.Project(sources={"s.txt": "old\n", "data/cfg.txt": "c0\n", "data/keep.txt": "k\n"},
+                       program={"scripts": {"plan.py": mainp, "p1.py": [tt]}, "commands": {}})
+        out["subplan-input-deleted" + name] = co.case_json(
+            p, [{"edits": [{"op": "delete", "path": "data/cfg.txt"}] + extra}])
     # the user touches PRODUCTS between two builds: an intermediate / final output is modified,
     # deleted, written again with the same bytes, or merely touched (restart and watch flavour);
     # a build from scratch does not care what the output looked like before
